@@ -344,6 +344,35 @@ def combo_worker(job):
             if fus is None or circ is None:
                 out['stats']['no_fusion_or_circ'] = 1
                 return out
+            # small records INSIDE the circRNA and DOWNSTREAM of the fusion breakpoint: the units of
+            # one transcript (main, fusion, circRNA) then share records that only some of them use
+            try:
+                gid = anno.transcripts[donor].transcript.gene_id
+                try:
+                    bp_tx = anno.coordinate_gene_to_transcript(int(fus.location.start), gid, donor)
+                except Exception:   # noqa  intronic breakpoint
+                    bp_tx = 0
+                cpos = []
+                for frag in circ.fragments:
+                    try:
+                        a = anno.coordinate_gene_to_transcript(int(frag.location.start), gid, donor)
+                        b = anno.coordinate_gene_to_transcript(int(frag.location.end) - 1, gid, donor) + 1
+                    except Exception:   # noqa  intron fragment of a ciRNA
+                        continue
+                    cpos += list(range(a + 4, b - 1))
+                down = [x for x in cpos if x > bp_tx + 1] or cpos
+                seen = {r.id for r in recs}
+                for _ in range(rng.randint(1, 3)):
+                    if not down:
+                        break
+                    rec = gen_ref.small_variant(anno, genome, donor, rng.choice(down),
+                                                rng.choice(['SNV', 'SNV', 'INS', 'DEL']), rng.randint(1, 3), rng)
+                    if rec is not None and rec.id not in seen:
+                        seen.add(rec.id)
+                        recs.append(rec)
+                        out['stats']['targeted_records'] = out['stats'].get('targeted_records', 0) + 1
+            except Exception:   # noqa
+                pass
             n_small = len(recs)
             allrecs = recs + [fus, circ]
             # write_gvfs puts circRNA records into a file of their own (the last one)
